@@ -34,7 +34,7 @@ def main():
         finally:
             shutil.rmtree(d, ignore_errors=True)
     if "--save" in sys.argv:
-        path = os.path.join(HERE, "tools", "selftest_results.json")
+        path = os.environ.get("SELFTEST_OUT") or os.path.join(HERE, "tools", "selftest_results.json")
         old = {}
         if os.path.exists(path):
             old = {(r["pid"], r["name"]): r for r in json.load(open(path))["results"]}
